@@ -378,6 +378,112 @@ def m_s_resize(e, st, a, I):
     s_set(e, st, s, cur[:n] + [cell] * max(0, n - len(cur)))
 
 
+# ---- std::string search family (symbolic characters: decisions fork the state, the fork re-executes the call)
+def _cell_val(c):
+    return c if type(c) is int else cell_bv(c)
+
+
+def _in_set(dec, c, chars):
+    """is character c one of chars?  (c, chars: ints or z3 8-bit terms)"""
+    if not chars:
+        return False
+    if type(c) is int and all(type(x) is int for x in chars):
+        return c in chars
+    return dec(z3.Or(*[(_bvv(c) == _bvv(x)) for x in chars]))
+
+
+def _bvv(x):
+    return z3.BitVecVal(x, 8) if type(x) is int else x
+
+
+NPOS64 = (1 << 64) - 1
+
+
+def _str_scan(e, st, a, forward, negate, single_char):
+    """find_first_of / find_last_of / find_first_not_of / find_last_not_of"""
+    s = a[0]
+    cs = [_cell_val(c) for c in s_get(e, st, s)]
+    if single_char:
+        ch, pos = a[1], a[2]
+        chars = [ch & 0xFF if not is_sym(ch) else z3.Extract(7, 0, ch) if ch.size() > 8 else ch]
+    else:
+        p, pos, n = a[1], a[2], a[3]
+        chars = [_cell_val(c) for c in cells(e, st, p, conc(n))]
+    pos = conc(pos)
+    dec = rx_decide(e, st)
+    n = len(cs)
+    if forward:
+        rng = range(pos, n) if pos < n else []
+    else:
+        if n == 0:
+            return NPOS64
+        start = n - 1 if pos >= n or pos == NPOS64 else pos
+        rng = range(start, -1, -1)
+    for i in rng:
+        hit = _in_set(dec, cs[i], chars)
+        if hit != negate:
+            return i
+    return NPOS64
+
+
+def m_s_find_first_of(e, st, a, I):
+    return _str_scan(e, st, a, True, False, False)
+
+
+def m_s_find_last_of(e, st, a, I):
+    return _str_scan(e, st, a, False, False, False)
+
+
+def m_s_find_first_not_of(e, st, a, I):
+    return _str_scan(e, st, a, True, True, False)
+
+
+def m_s_find_last_not_of(e, st, a, I):
+    return _str_scan(e, st, a, False, True, False)
+
+
+def m_s_find_char(e, st, a, I):
+    return _str_scan(e, st, a, True, False, True)
+
+
+def m_s_rfind_char(e, st, a, I):
+    return _str_scan(e, st, a, False, False, True)
+
+
+def m_s_find_first_not_of_char(e, st, a, I):
+    return _str_scan(e, st, a, True, True, True)
+
+
+def m_s_find_last_not_of_char(e, st, a, I):
+    return _str_scan(e, st, a, False, True, True)
+
+
+def m_s_erase(e, st, a, I):
+    """basic_string::_M_erase(pos, n)"""
+    s, pos, n = a
+    pos, n = conc(pos), conc(n)
+    cur = s_get(e, st, s)
+    s_set(e, st, s, cur[:pos] + cur[pos + n:])
+
+
+def m_s_find_sym(e, st, a, I):
+    """find(const char*, pos, n) with symbolic characters"""
+    s, p, pos, n = a
+    cs = [_cell_val(c) for c in s_get(e, st, s)]
+    pat = [_cell_val(c) for c in cells(e, st, p, conc(n))]
+    pos = conc(pos)
+    if all(type(c) is int for c in cs + pat):
+        r = bytes(cs).find(bytes(pat), pos)
+        return r & M64
+    dec = rx_decide(e, st)
+    if not pat:
+        return pos if pos <= len(cs) else NPOS64
+    for i in range(pos, len(cs) - len(pat) + 1):
+        if dec(z3.And(*[_bvv(cs[i + k]) == _bvv(pat[k]) for k in range(len(pat))])):
+            return i
+    return NPOS64
+
+
 # ---------------- libc
 def m_strlen(e, st, a, I):
     p = a[0]
@@ -1287,7 +1393,16 @@ M3 = {
     SPRE + "12_M_constructEmc": m_s_construct_nc,
     SPRE + "9_M_mutateEmmPKcm": m_s_mutate,
     "_ZNKSt7__cxx1112basic_stringIcSt11char_traitsIcESaIcEE7compareEPKc": m_s_compare_cstr,
-    "_ZNKSt7__cxx1112basic_stringIcSt11char_traitsIcESaIcEE4findEPKcmm": m_s_find,
+    "_ZNKSt7__cxx1112basic_stringIcSt11char_traitsIcESaIcEE4findEPKcmm": m_s_find_sym,
+    "_ZNKSt7__cxx1112basic_stringIcSt11char_traitsIcESaIcEE4findEcm": m_s_find_char,
+    "_ZNKSt7__cxx1112basic_stringIcSt11char_traitsIcESaIcEE5rfindEcm": m_s_rfind_char,
+    "_ZNKSt7__cxx1112basic_stringIcSt11char_traitsIcESaIcEE13find_first_ofEPKcmm": m_s_find_first_of,
+    "_ZNKSt7__cxx1112basic_stringIcSt11char_traitsIcESaIcEE12find_last_ofEPKcmm": m_s_find_last_of,
+    "_ZNKSt7__cxx1112basic_stringIcSt11char_traitsIcESaIcEE17find_first_not_ofEPKcmm": m_s_find_first_not_of,
+    "_ZNKSt7__cxx1112basic_stringIcSt11char_traitsIcESaIcEE16find_last_not_ofEPKcmm": m_s_find_last_not_of,
+    "_ZNKSt7__cxx1112basic_stringIcSt11char_traitsIcESaIcEE17find_first_not_ofEcm": m_s_find_first_not_of_char,
+    "_ZNKSt7__cxx1112basic_stringIcSt11char_traitsIcESaIcEE16find_last_not_ofEcm": m_s_find_last_not_of_char,
+    "_ZNSt7__cxx1112basic_stringIcSt11char_traitsIcESaIcEE8_M_eraseEmm": m_s_erase,
     SPRE + "aSEOS4_": m_s_move_assign,
     SPRE + "6resizeEmc": m_s_resize,
     "_ZnwmRKSt9nothrow_t": lambda e, st, a, I: m_new(e, st, [a[0]], I),
